@@ -31,6 +31,9 @@ type BannerSpec struct {
 	Offset int    `json:"offset"`
 	Kind   string `json:"kind"`
 	Split  bool   `json:"split"`
+	// At: "" (change command Chg) | "conf" | "end" (the commands that frame
+	// the guarded block)
+	At string `json:"at,omitempty"`
 }
 
 // Scenario is the replayable description of one end-to-end run.
